@@ -142,7 +142,10 @@ def translate_index(repo, method, getter, coq_name):
     if ([x.arg for x in a.args] != ["self", "time"] or a.vararg or a.kwarg or a.kwonlyargs or len(a.defaults) != 1
             or not (isinstance(a.defaults[0], ast.Constant) and a.defaults[0].value is None)):
         raise Unsupported("signature of " + method)
-    body = [s for s in fn.body if not _is_doc(s)]
+    import pynorm
+    mod_ = ast.parse(open(os.path.join(repo, path)).read())
+    cls_ = [n for n in mod_.body if isinstance(n, ast.ClassDef) and n.name == cls][0]
+    body = pynorm.inline_value_helpers([s for s in fn.body if not _is_doc(s)], cls_)
     if not body or ast.unparse(body[0]) != "if time is None:\n    time = self.get_time()":
         raise Unsupported("the defaulting of `time`")
     body = body[1:]
